@@ -501,7 +501,7 @@ def check_case(case, ctx, ):
 
 def run(ctx):
     max_ops = 14 if ctx.tier == "quick" else 30
-    ctx.hypothesis(st_case(max_ops=max_ops), check_case, ctx.scale(800, 24000), label="history")
+    ctx.hypothesis(st_case(max_ops=max_ops), check_case, ctx.scale(800, 16000), label="history")
 
 
 def replay(case, ctx):
